@@ -143,7 +143,7 @@ Proof.
   induction t as [| | | | |e|t IH|tk IHk tv IHv|c]; intros v v' H; simpl in H.
   - destruct v as [|z|b|[z|x]|s|s|e m|l|ps|o c sub]; inversion H; subst; exact I.
   - destruct v as [|z|b|f|s|s|e m|l|ps|o c sub]; inversion H; subst; exact I.
-  - inversion H; subst. exact I.
+  - destruct v; inversion H; subst; exact I.
   - destruct v; inversion H; subst; exact I.
   - destruct v as [|z|b|f|s|s|e m|l|ps|o c sub]; try discriminate.
     + inversion H; subst; exact I.
@@ -186,7 +186,7 @@ Proof.
   induction t as [| | | | |e|t IH|tk IHk tv IHv|c]; intros v H; simpl in H.
   - destruct v; try contradiction; reflexivity.
   - destruct v; try contradiction; reflexivity.
-  - destruct v as [|z|b0|f|s|s|e m|l|ps|o c sub]; try contradiction. reflexivity.
+  - destruct v as [|z|b0|f|s|s|e m|l|ps|o c sub]; try contradiction. destruct b; reflexivity.
   - destruct v; try contradiction; reflexivity.
   - destruct v; try contradiction; reflexivity.
   - destruct v as [|z|b0|f|s|s|e' m|l|ps|o c sub]; try contradiction. subst. simpl.
@@ -247,6 +247,140 @@ Proof.
     rewrite (dict_build_exact _ _ ps ps' []); [reflexivity| |exact HD].
     eapply Forall2_imp; [|exact HF]. intros p p' [Hk Hv]. split; [apply IHk | apply IHv]; assumption.
   - destruct H as [H ->]. apply validate_conforming_gen; exact H.
+Qed.
+
+(* ---- what is accepted is the given value up to the documented coercions, or a listed oddity *)
+Lemma map_res_pairs : forall (f : value -> result value) l l',
+  map_res f l = Ok l' -> Forall2 (fun x y => f x = Ok y) l l'.
+Proof.
+  intros f l. induction l as [|x r IH]; intros l' H; simpl in H.
+  - inversion H. constructor.
+  - destruct (f x) eqn:E; [|discriminate]. destruct (map_res f r) eqn:E2; [|discriminate].
+    inversion H; subst. constructor; [exact E | apply IH; reflexivity].
+Qed.
+
+Lemma Forall2_or_split : forall (A B : Type) (R : A -> B -> Prop) (P : A -> Prop) l l',
+  Forall2 (fun x y => R x y \/ P x) l l' -> Forall2 R l l' \/ Exists P l.
+Proof.
+  intros A B R P l l' H. induction H as [|x y r r' [Hxy|Hx] _ [IH|IH]].
+  - left. constructor.
+  - left. constructor; assumption.
+  - right. apply Exists_cons_tl. exact IH.
+  - right. apply Exists_cons_hd. exact Hx.
+  - right. apply Exists_cons_hd. exact Hx.
+Qed.
+
+Lemma dict_build_pairs : forall (fk fv : value -> result value) ps acc out,
+  dict_build fk fv ps acc = Ok out ->
+  exists qs, Forall2 (fun p q => fk (fst p) = Ok (fst q) /\ fv (snd p) = Ok (snd q)) ps qs.
+Proof.
+  intros fk fv ps. induction ps as [|[k v] r IH]; intros acc out H; simpl in H.
+  - exists []. constructor.
+  - destruct (fk k) as [k'|] eqn:Ek; [|discriminate]. destruct (fv v) as [v'|] eqn:Ev; [|discriminate].
+    destruct (IH _ _ H) as [qs Hq]. exists ((k', v') :: qs). constructor; [split; assumption | exact Hq].
+Qed.
+
+Lemma distinct_keys_dec : forall ks, distinct_keys ks \/ ~ distinct_keys ks.
+Proof.
+  induction ks as [|k r [IH|IH]]; simpl.
+  - left. exact I.
+  - destruct (existsb (keq k) r) eqn:E.
+    + right. intros [H _]. apply existsb_exists in E. destruct E as [k' [Hin Hk]].
+      rewrite (H k' Hin) in Hk. discriminate.
+    + left. split; [|exact IH]. intros k' Hin.
+      destruct (keq k k') eqn:E2; [|reflexivity].
+      assert (existsb (keq k) r = true) by (apply existsb_exists; exists k'; auto). congruence.
+  - right. intros [_ H]. contradiction.
+Qed.
+
+(* REPAIRED validate: a value that is accepted is the given value up to the documented
+   coercions (integral float -> int, int -> float, str -> path, at any depth), unless one
+   of the listed oddities occurs in it: a bool at a float position, the serialised dict
+   form at a path position, dict keys that collapse                                     *)
+Theorem validate_explained : forall cl t v v',
+  validate cl t v = Ok v' -> coerced cl t v v' \/ odd cl t v.
+Proof.
+  intros cl t. unfold validate.
+  induction t as [| | | | |e|t IH|tk IHk tv IHv|c]; intros v v' H.
+  - simpl in H. destruct v as [|z|b|[z|x]|s|s|e m|l|ps|o c sub]; inversion H; subst; left; simpl.
+    + left. split; [exact I | reflexivity].
+    + left. split; [exact I | reflexivity].
+    + right. exists z. split; reflexivity.
+  - simpl in H. destruct v as [|z|b|f|s|s|e m|l|ps|o c sub]; inversion H; subst; simpl.
+    + left. right. exists z. split; reflexivity.
+    + right. exists b. reflexivity.
+    + left. left. split; [exact I | reflexivity].
+  - simpl in H. destruct v; inversion H; subst. left. simpl. split; [exact I | reflexivity].
+  - simpl in H. destruct v; inversion H; subst. left. simpl. split; [exact I | reflexivity].
+  - destruct v as [|z|b|f|s|s|e m|l|ps|o c sub]; try (simpl in H; discriminate).
+    + simpl in H. inversion H; subst. left. simpl. right. exists s. split; reflexivity.
+    + simpl in H. inversion H; subst. left. simpl. left. split; [exact I | reflexivity].
+    + right. simpl. exists ps. reflexivity.
+  - simpl in H. destruct v as [|z|b|f|s|s|e' m|l|ps|o c sub]; try discriminate.
+    destruct (Nat.eqb e' e) eqn:E; [|discriminate]. inversion H; subst. left. simpl.
+    split; [apply Nat.eqb_eq; exact E | reflexivity].
+  - simpl in H. destruct v as [|z|b|f|s|s|e' m|l|ps|o c sub]; try discriminate.
+    destruct (map_res (validate_gen false cl t) l) as [l'|] eqn:E; [|discriminate].
+    inversion H; subst. apply map_res_pairs in E.
+    assert (E' : Forall2 (fun x y => coerced cl t x y \/ odd cl t x) l l').
+    { eapply Forall2_imp; [|exact E]. intros x y Hxy. apply IH. exact Hxy. }
+    apply Forall2_or_split in E'. destruct E' as [E'|E'].
+    + left. simpl. exists l, l'. auto.
+    + right. simpl. exists l. auto.
+  - simpl in H. destruct v as [|z|b|f|s|s|e' m|l|ps|o c sub]; try discriminate.
+    destruct (dict_build (validate_gen false cl tk) (validate_gen false cl tv) ps []) as [out|] eqn:E; [|discriminate].
+    inversion H; subst. destruct (dict_build_pairs _ _ _ _ _ E) as [qs Hq].
+    destruct (distinct_keys_dec (map fst qs)) as [HD|HD].
+    + assert (Eo : out = qs).
+      { pose proof (dict_build_exact _ _ ps qs [] Hq HD) as E2. simpl in E2. rewrite E in E2. inversion E2. reflexivity. }
+      subst out.
+      assert (E' : Forall2 (fun p q => (coerced cl tk (fst p) (fst q) /\ coerced cl tv (snd p) (snd q)) \/
+                                      (odd cl tk (fst p) \/ odd cl tv (snd p))) ps qs).
+      { eapply Forall2_imp; [|exact Hq]. intros p q [Hk Hv].
+        destruct (IHk _ _ Hk) as [Ck|Ok_]; [|right; left; exact Ok_].
+        destruct (IHv _ _ Hv) as [Cv|Ov]; [left; split; assumption | right; right; exact Ov]. }
+      apply Forall2_or_split in E'. destruct E' as [E'|E'].
+      * left. simpl. exists ps, qs. auto.
+      * right. simpl. exists ps. split; [reflexivity|]. left. exact E'.
+    + right. simpl. exists ps. split; [reflexivity|]. right. exists (map fst qs). split; [|exact HD].
+      clear - Hq. induction Hq as [|p q r r' [Hk _] _ IH]; simpl; constructor; [exact Hk | exact IH].
+  - left. pose proof (validate_sound cl (TObj c) v v' H) as Ht. simpl in H.
+    destruct v as [|z|b|f|s|s|e' m|l|ps|o c' sub]; try discriminate.
+    destruct (subclass cl c' c); [|discriminate]. destruct (class_task cl c && negb sub); [discriminate|].
+    inversion H; subst. simpl. split; [exact Ht | reflexivity].
+Qed.
+
+(* hence: a value that is not of the type up to the documented coercions, and contains
+   none of the listed oddities, is REJECTED (the assignment raises)                    *)
+Corollary nonconforming_rejected : forall cl t v,
+  (forall v', ~ coerced cl t v v') -> ~ odd cl t v -> validate cl t v = Err.
+Proof.
+  intros cl t v Hc Ho. destruct (validate cl t v) as [v'|] eqn:E; [|reflexivity].
+  destruct (validate_explained _ _ _ _ E) as [H|H]; [exfalso; eapply Hc; exact H | contradiction].
+Qed.
+
+(* each listed oddity does occur (same behaviour in the code) *)
+Example odd_bool_as_float : validate [] TFloat (VBool true) = Ok (VFloat (FInt 1)) /\ odd [] TFloat (VBool true).
+Proof. split; [reflexivity | exists true; reflexivity]. Qed.
+Example odd_path_dict :
+  validate [] TPath (VDict [(VStr "$type", VStr "path"); (VStr "$value", VStr "q")]) = Ok (VPath "q").
+Proof. reflexivity. Qed.
+Example odd_keys_collapse :
+  validate [] (TDict TFloat TStr) (VDict [(VInt 1, VStr "a"); (VFloat (FInt 1), VStr "b")]) = Ok (VDict [(VFloat (FInt 1), VStr "b")]).
+Proof. reflexivity. Qed.
+Example nonconforming_rejected_ex :
+  validate [] (TList (TDict TStr TBool)) (VList [VDict [(VStr "k", VDict [(VInt 1, VNone)])]]) = Err /\
+  validate [] TBool (VList [VStr "x"]) = Err /\ validate [] TBool (VInt 1) = Err.
+Proof. repeat split. Qed.
+
+(* the code as it is: bool(value) for ANY value - Param[bool] given ["x"], "no" or 0.5
+   silently stores True: not the given value up to any documented coercion           *)
+Theorem bool_accepts_anything_refuted : exists cl v v',
+  validate_prefix cl TBool v = Ok v' /\ ~ coerced cl TBool v v' /\ ~ odd cl TBool v /\
+  validate_prefix cl TBool (VStr "no") = Ok (VBool true).
+Proof.
+  exists [], (VList [VStr "x"]), (VBool true). split; [reflexivity|].
+  split; [simpl; intros [H _]; exact H|]. split; [simpl; tauto | reflexivity].
 Qed.
 
 (* the pinned commit lets None through wherever a configuration is expected *)
@@ -1058,17 +1192,40 @@ Proof.
   - rewrite nth_upd_other in Hj by exact Hne. eapply Hh; exact Hj.
 Qed.
 
-(* in a history of assignments, submits and validations the parameters only ever
-   hold values of their declared types                                          *)
-Theorem sess_step_typed : forall cl s o s' r,
-  sess_step cl s o = (s', r) -> heap_typed cl (s_heap s) -> heap_typed cl (s_heap s').
+(* the states of a submit *)
+Lemma submit_trace_cases : forall rb cl s root init tr v,
+  submit_trace rb cl s root init = (tr, v) ->
+  (tr = [] /\ v = Rejected) \/
+  exists n, nth_error (s_heap s) root = Some n /\
+    mem root (s_jobs s) || negb (class_task cl (n_cls n)) = false /\
+    let s1 := begin_submit s root n init in
+    ((exists vis, cfg_validate cl (s_heap s1) root = Some (VOk vis) /\ tr = [s1; register s1 root] /\ v = Accepted) \/
+     (exists vis, cfg_validate cl (s_heap s1) root = Some (VErr vis) /\ tr = [s1; if rb then s else s1] /\ v = Rejected) \/
+     (cfg_validate cl (s_heap s1) root = None /\ tr = [s1] /\ v = OutOfFuel)).
 Proof.
-  intros cl s o s' r H Ht. destruct o as [root init|root|m k v]; simpl in H.
-  - destruct (nth_error (s_heap s) root) as [n|] eqn:En; [|inversion H; subst; exact Ht].
-    destruct (mem root (s_jobs s) || negb (class_task cl (n_cls n))); [inversion H; subst; exact Ht|].
-    destruct (submit cl (upd_nth (s_heap s) root (set_init n init)) (s_reg s) root) as [reg' v].
-    inversion H; subst. simpl. apply heap_typed_upd; [exact Ht|].
-    intros i d v0 Hn Hv. eapply (Ht _ _ En); eauto.
+  intros rb cl s root init tr v H. unfold submit_trace in H.
+  destruct (nth_error (s_heap s) root) as [n|] eqn:En; [|inversion H; auto].
+  destruct (mem root (s_jobs s) || negb (class_task cl (n_cls n))) eqn:G; [inversion H; auto|].
+  right. exists n. split; [first [reflexivity | assumption]|]. split; [first [reflexivity | assumption]|]. simpl.
+  destruct (cfg_validate cl (s_heap (begin_submit s root n init)) root) as [[vis|vis]|] eqn:E;
+    inversion H; subst.
+  - left. exists vis. auto.
+  - right. left. exists vis. auto.
+  - right. right. auto.
+Qed.
+
+(* in a history of assignments, submits and validations the parameters only ever
+   hold values of their declared types (whichever of the two submit behaviours)  *)
+Theorem sess_step_typed : forall rb cl s o s' r,
+  sess_step_gen rb cl s o = (s', r) -> heap_typed cl (s_heap s) -> heap_typed cl (s_heap s').
+Proof.
+  intros rb cl s o s' r H Ht. destruct o as [root init|root|m k v]; simpl in H.
+  - destruct (submit_trace rb cl s root init) as [tr v] eqn:E. inversion H; subst. clear H.
+    destruct (submit_trace_cases _ _ _ _ _ _ _ E) as [[-> _]|[n [En [_ C]]]]; [exact Ht|].
+    assert (H1 : heap_typed cl (s_heap (begin_submit s root n init))).
+    { simpl. apply heap_typed_upd; [exact Ht|]. intros i d v0 Hn Hv. eapply (Ht _ _ En); eauto. }
+    simpl in C. destruct C as [[vis [_ [-> _]]]|[[vis [_ [-> _]]]|[_ [-> _]]]]; simpl; try exact H1.
+    destruct rb; [exact Ht | exact H1].
   - inversion H; subst. exact Ht.
   - destruct (nth_error (s_heap s) m) as [n|] eqn:En; [|inversion H; subst; exact Ht].
     destruct (cfg_set cl n k (stamp (s_jobs s) v)) as [n' o] eqn:Es.
@@ -1083,25 +1240,77 @@ Proof.
   apply IH. destruct (sess_step cl s o) as [s' v] eqn:E. simpl. eapply sess_step_typed; eauto.
 Qed.
 
+(* registration is a step of its own: in every state a submit goes through, the
+   registry is what it was, or it has gained the task - and that only in a state
+   whose validation has answered VOk                                            *)
+Theorem registered_only_after_validation : forall rb cl s root init tr v,
+  submit_trace rb cl s root init = (tr, v) ->
+  Forall (fun s' => s_reg s' = s_reg s \/
+                    (s_reg s' = s_reg s ++ [root] /\ v = Accepted /\
+                     exists vis, cfg_validate cl (s_heap s') root = Some (VOk vis))) tr.
+Proof.
+  intros rb cl s root init tr v H.
+  destruct (submit_trace_cases _ _ _ _ _ _ _ H) as [[-> _]|[n [_ [_ C]]]]; [constructor|].
+  simpl in C. destruct C as [[vis [Hv [-> ->]]]|[[vis [_ [-> ->]]]|[_ [-> ->]]]].
+  - constructor; [left; reflexivity|]. constructor; [|constructor].
+    right. split; [reflexivity|]. split; [reflexivity|]. exists vis. exact Hv.
+  - constructor; [left; reflexivity|]. constructor; [|constructor]. left. destruct rb; reflexivity.
+  - constructor; [left; reflexivity | constructor].
+Qed.
+
 (* submit fails fast whatever happened before: whichever objects already "have a
-   job" (in particular a task whose own submit was rejected and which was then
-   given as a parameter), a required value missing anywhere below the submitted
-   task makes submit raise, and nothing is registered                           *)
-Theorem session_missing_rejected : forall cl s root init n m,
+   job", a required value missing anywhere below the submitted task makes submit
+   raise, and NO state the submit goes through has anything more registered      *)
+Theorem session_missing_rejected : forall rb cl s root init n m,
   nth_error (s_heap s) root = Some n ->
   let h' := upd_nth (s_heap s) root (set_init n init) in
   reach objs cl h' root m -> lacks_required cl h' m ->
-  exists s', sess_step cl s (OSubmit root init) = (s', Rejected) /\ s_reg s' = s_reg s.
+  exists tr, submit_trace rb cl s root init = (tr, Rejected) /\
+             Forall (fun s' => s_reg s' = s_reg s) tr.
 Proof.
-  intros cl s root init n m En h' Hr Hl. simpl. rewrite En.
-  destruct (mem root (s_jobs s) || negb (class_task cl (n_cls n))).
-  - exists s. split; reflexivity.
-  - fold h'. rewrite (missing_rejected cl h' (s_reg s) root m Hr Hl).
-    eexists. split; reflexivity.
+  intros rb cl s root init n m En h' Hr Hl.
+  destruct (submit_trace rb cl s root init) as [tr v] eqn:E. exists tr.
+  pose proof (missing_rejected cl h' [] root m Hr Hl) as Hm. unfold submit in Hm.
+  destruct (submit_trace_cases _ _ _ _ _ _ _ E) as [[-> ->]|[n0 [En0 [_ C]]]]; [split; [reflexivity|constructor]|].
+  rewrite En in En0. inversion En0; subst n0. simpl in C. fold h' in C.
+  destruct C as [[vis [Hv _]]|[[vis [Hv [-> ->]]]|[Hv _]]].
+  - rewrite Hv in Hm. discriminate.
+  - split; [reflexivity|]. constructor; [reflexivity|]. constructor; [|constructor]. destruct rb; reflexivity.
+  - rewrite Hv in Hm. discriminate.
 Qed.
 
-(* the scenario: t1 = TK() lacks its required value, t1.submit() raises (its job flag
-   stays set); t2.t = t1 is accepted by the assignment; t2.submit() must raise      *)
+(* conversely, a task that is complete and has not been submitted is accepted and registered *)
+Theorem session_complete_accepted : forall rb cl s root init n,
+  nth_error (s_heap s) root = Some n ->
+  mem root (s_jobs s) = false -> class_task cl (n_cls n) = true ->
+  let h' := upd_nth (s_heap s) root (set_init n init) in
+  (forall m, reach objs cl h' root m -> ~ lacks_required cl h' m) ->
+  exists s', sess_step_gen rb cl s (OSubmit root init) = (s', Accepted) /\ s_reg s' = s_reg s ++ [root].
+Proof.
+  intros rb cl s root init n En Hj Ht h' Hc.
+  pose proof (complete_accepted cl h' [] root Hc) as Hm. unfold submit in Hm.
+  simpl. unfold submit_trace. rewrite En, Hj, Ht. simpl. fold h'.
+  destruct (cfg_validate cl h' root) as [[vis|vis]|]; try discriminate.
+  eexists. split; reflexivity.
+Qed.
+
+(* REPAIRED code: a call that raises leaves every object, every job flag and the
+   registry as they were                                                        *)
+Theorem rejected_changes_nothing : forall cl s o s',
+  sess_step cl s o = (s', Rejected) -> s' = s.
+Proof.
+  intros cl s o s' H. unfold sess_step in H. destruct o as [root init|root|m k v]; simpl in H.
+  - destruct (submit_trace true cl s root init) as [tr v] eqn:E. inversion H; subst. clear H.
+    destruct (submit_trace_cases _ _ _ _ _ _ _ E) as [[-> _]|[n [_ [_ C]]]]; [reflexivity|].
+    simpl in C. destruct C as [[vis [_ [_ C]]]|[[vis [_ [-> _]]]|[_ [_ C]]]]; try discriminate. reflexivity.
+  - inversion H; reflexivity.
+  - destruct (nth_error (s_heap s) m) as [n|]; [|inversion H; reflexivity].
+    destruct (cfg_set cl n k (stamp (s_jobs s) v)) as [n' o]. destruct o; inversion H; reflexivity.
+Qed.
+
+(* the scenario, on the code as it is: t1 = TK() lacks its required value, t1.submit()
+   raises and t1 keeps its job; t2.t = t1 is accepted by the assignment (a task that was
+   never registered is taken for a submitted one); t1 completed cannot be submitted again *)
 Definition ex_cl_pipe : classes :=
   [ {| c_parents := []; c_task := true;
        c_args := [ {| a_ty := TInt; a_required := true; a_generated := false; a_constant := false |};
@@ -1110,29 +1319,47 @@ Definition ex_sess_pipe : session :=
   {| s_heap := [ mk 0 [(0%nat, VInt 1); (1%nat, VNone)]; mk 0 [(1%nat, VNone)] ];
      s_jobs := []; s_reg := [] |}.
 
-Example failed_task_as_parameter_rejected :
+Theorem rejected_submit_leaves_job_refuted : exists cl s root init s',
+  sess_step_prefix cl s (OSubmit root init) = (s', Rejected) /\ s' <> s /\
+  s_reg s' = [] /\
+  (* the rejected task is now accepted where a submitted task is required ... *)
+  snd (sess_step_prefix cl s' (OSet 0 1 (VObj root 0 false))) = Accepted /\
+  snd (sess_step_prefix cl s (OSet 0 1 (VObj root 0 false))) = Rejected /\
+  (* ... and, once completed, it is refused: "already submitted" *)
+  let s2 := fst (sess_step_prefix cl s' (OSet root 0 (VInt 5))) in
+  snd (sess_step_prefix cl s' (OSet root 0 (VInt 5))) = Accepted /\
+  snd (sess_step_prefix cl s2 (OSubmit root init)) = Rejected /\
+  (* ... although its validation now passes *)
+  exists vis, cfg_validate cl (s_heap s2) root = Some (VOk vis).
+Proof.
+  exists ex_cl_pipe, ex_sess_pipe, 1%nat, [], (fst (sess_step_prefix ex_cl_pipe ex_sess_pipe (OSubmit 1 []))).
+  split; [vm_compute; reflexivity|]. split; [vm_compute; discriminate|].
+  split; [vm_compute; reflexivity|]. split; [vm_compute; reflexivity|]. split; [vm_compute; reflexivity|].
+  split; [vm_compute; reflexivity|]. split; [vm_compute; reflexivity|].
+  eexists. vm_compute. reflexivity.
+Qed.
+
+(* the same scenario on the repaired code: the rejected task has no job, is refused
+   as a parameter, and is accepted and registered once completed                   *)
+Example rejected_task_repaired :
   let s1 := fst (sess_step ex_cl_pipe ex_sess_pipe (OSubmit 1 [])) in
-  let s2 := fst (sess_step ex_cl_pipe s1 (OSet 0 1 (VObj 1 0 false))) in
-  snd (sess_step ex_cl_pipe ex_sess_pipe (OSubmit 1 [])) = Rejected /\ s_jobs s1 = [1%nat] /\
-  snd (sess_step ex_cl_pipe s1 (OSet 0 1 (VObj 1 0 false))) = Accepted /\
-  cfg_get (nth 0 (s_heap s2) (mk 0 [])) 1 = Some (VObj 1 0 true) /\
-  sess_step ex_cl_pipe s2 (OSubmit 0 []) = ({| s_heap := s_heap s2; s_jobs := [0; 1]%nat; s_reg := [] |}, Rejected) /\
-  (* before its own submit the task cannot be given at all *)
-  snd (sess_step ex_cl_pipe ex_sess_pipe (OSet 0 1 (VObj 1 0 false))) = Rejected.
+  sess_step ex_cl_pipe ex_sess_pipe (OSubmit 1 []) = (ex_sess_pipe, Rejected) /\
+  snd (sess_step ex_cl_pipe s1 (OSet 0 1 (VObj 1 0 false))) = Rejected /\
+  let s2 := fst (sess_step ex_cl_pipe s1 (OSet 1 0 (VInt 5))) in
+  let s3 := fst (sess_step ex_cl_pipe s2 (OSubmit 1 [])) in
+  snd (sess_step ex_cl_pipe s2 (OSubmit 1 [])) = Accepted /\ s_reg s3 = [1%nat] /\
+  snd (sess_step ex_cl_pipe s3 (OSet 0 1 (VObj 1 0 false))) = Accepted /\
+  snd (sess_step ex_cl_pipe (fst (sess_step ex_cl_pipe s3 (OSet 0 1 (VObj 1 0 false)))) (OSubmit 0 [])) = Accepted.
 Proof. vm_compute. repeat split. Qed.
 
 Example session_missing_rejected_ex :
-  let s1 := fst (sess_step ex_cl_pipe ex_sess_pipe (OSubmit 1 [])) in
-  let s2 := fst (sess_step ex_cl_pipe s1 (OSet 0 1 (VObj 1 0 false))) in
-  exists n, nth_error (s_heap s2) 0 = Some n /\
-    reach objs ex_cl_pipe (upd_nth (s_heap s2) 0 (set_init n [])) 0 1 /\
-    lacks_required ex_cl_pipe (upd_nth (s_heap s2) 0 (set_init n [])) 1.
+  exists n, nth_error (s_heap ex_sess_pipe) 1 = Some n /\
+    reach objs ex_cl_pipe (upd_nth (s_heap ex_sess_pipe) 1 (set_init n [])) 1 1 /\
+    lacks_required ex_cl_pipe (upd_nth (s_heap ex_sess_pipe) 1 (set_init n [])) 1.
 Proof.
-  vm_compute. eexists. split; [reflexivity|]. split.
-  - eapply reach_step; [apply reach_refl|]. eexists. split; [reflexivity|]. left.
-    exists 1%nat. eexists. eexists. split; [reflexivity|]. split; [reflexivity|]. simpl. auto.
-  - eexists. exists 0%nat. eexists. split; [reflexivity|]. split; [reflexivity|].
-    split; [reflexivity|]. split; [reflexivity|]. left. reflexivity.
+  vm_compute. eexists. split; [reflexivity|]. split; [apply reach_refl|].
+  eexists. exists 0%nat. eexists. split; [reflexivity|]. split; [reflexivity|].
+  split; [reflexivity|]. split; [reflexivity|]. left. reflexivity.
 Qed.
 
 (* defaults: Param[float] = 1 holds 1.0, Param[List[float]] = [1, 2] holds [1.0, 2.0],
